@@ -302,10 +302,19 @@ func scalarString(v reflect.Value) string {
 	return "-"
 }
 
-// fieldRecords: one {name, d, n, v} record per field of the struct s (all fields, exported or not), except `skip`.
-func fieldRecords(s reflect.Value, skip map[string]bool) []trace.M {
+// item is one entry of a section's normal form: v = the compared value, c = the class reported when it differs,
+// n / s = size and readable scalar value (diagnosis only).
+func item(v any, class string, n int, s string) trace.M {
+	return trace.M{"v": v, "c": class, "n": n, "s": s}
+}
+
+// newSection: a section is a JSON object item-key -> item; the dummy entry keeps it from ever being empty (TLC's Json
+// module turns {} into the empty TUPLE).
+func newSection() trace.M { return trace.M{"_": item("-", "-", 0, "-")} }
+
+// fieldItems adds one item per field of the struct s (all fields, exported or not) under prefix, except `skip`.
+func fieldItems(sec trace.M, prefix string, s reflect.Value, skip map[string]bool) {
 	s = writable(s)
-	out := []trace.M{}
 	t := s.Type()
 	for i := 0; i < t.NumField(); i++ {
 		name := t.Field(i).Name
@@ -314,15 +323,13 @@ func fieldRecords(s reflect.Value, skip map[string]bool) []trace.M {
 		}
 		f := field(s, i)
 		d, n := digestValue(f)
-		out = append(out, trace.M{"name": name, "d": d, "n": n, "v": scalarString(f)})
+		sec[prefix+name] = item(d, name, n, scalarString(f))
 	}
-	sort.Slice(out, func(i, j int) bool { return out[i]["name"].(string) < out[j]["name"].(string) })
-	return out
 }
 
 // ---------------------------------------------------------------- sections
 
-// SnapItem / SnapExtra: a driver-supplied section (ordered items, each digested with the same canonical form).
+// SnapItem / SnapExtra: a driver-supplied section (items digested with the same canonical form).
 type SnapItem struct {
 	Key  string
 	Val  any
@@ -334,7 +341,7 @@ type SnapExtra struct {
 }
 
 // snapAPI reads every stored object straight from the tracker.
-func (w *World) snapAPI() []trace.M {
+func (w *World) snapAPI() trace.M {
 	tv := reflect.ValueOf(w.Raw)
 	for tv.Kind() == reflect.Interface || tv.Kind() == reflect.Pointer {
 		tv = tv.Elem()
@@ -344,16 +351,13 @@ func (w *World) snapAPI() []trace.M {
 		panic("snapshot: the object tracker has no `objects` map (client-go changed); adapt harness/world/x_snapshot.go")
 	}
 	of = reflect.NewAt(of.Type(), unsafe.Pointer(of.UnsafeAddr())).Elem()
-	out := []trace.M{}
+	sec := newSection()
 	it := of.MapRange()
 	for it.Next() {
-		gvr := it.Key().Interface()
-		inner := it.Value()
-		it2 := inner.MapRange()
+		it2 := it.Value().MapRange()
 		for it2.Next() {
 			vo := writable(it2.Value())
-			objF := vo.FieldByName("Object")
-			obj, ok := field(vo, fieldIndex(vo.Type(), objF, "Object")).Interface().(runtime.Object)
+			obj, ok := field(vo, fieldIndex(vo.Type(), "Object")).Interface().(runtime.Object)
 			if !ok || obj == nil {
 				continue
 			}
@@ -367,20 +371,17 @@ func (w *World) snapAPI() []trace.M {
 			}
 			h := sha256.Sum256(b)
 			kind := kindOf(obj)
-			out = append(out, trace.M{"k": kind + "/" + acc.GetNamespace() + "/" + acc.GetName(), "kind": kind, "rv": orDash(acc.GetResourceVersion()),
-				"d": hex.EncodeToString(h[:8]), "res": fmt.Sprint(gvr)})
+			key := kind + "/" + acc.GetNamespace() + "/" + acc.GetName()
+			if _, dup := sec[key]; dup { // the same kind/ns/name under two resources (does not happen with the scheme in use)
+				key += "@" + fmt.Sprint(it.Key().Interface())
+			}
+			sec[key] = item([]string{orDash(acc.GetResourceVersion()), hex.EncodeToString(h[:8])}, kind, len(b), "-")
 		}
 	}
-	sort.Slice(out, func(i, j int) bool {
-		return out[i]["k"].(string)+out[i]["res"].(string) < out[j]["k"].(string)+out[j]["res"].(string)
-	})
-	for _, o := range out {
-		delete(o, "res")
-	}
-	return out
+	return sec
 }
 
-func fieldIndex(t reflect.Type, _ reflect.Value, name string) int {
+func fieldIndex(t reflect.Type, name string) int {
 	for i := 0; i < t.NumField(); i++ {
 		if t.Field(i).Name == name {
 			return i
@@ -390,9 +391,9 @@ func fieldIndex(t reflect.Type, _ reflect.Value, name string) int {
 }
 
 // snapCluster projects an in-memory cluster state (any struct pointer; its `nodes` map is expanded per entry and per
-// field, every other field gets one record).
-func snapCluster(cluster any) (nodes []trace.M, cache []trace.M) {
-	nodes, cache = []trace.M{}, []trace.M{}
+// field, every other field gets one item).
+func snapCluster(cluster any) (nodes trace.M, cache trace.M) {
+	nodes, cache = newSection(), newSection()
 	if cluster == nil {
 		return
 	}
@@ -421,24 +422,20 @@ func snapCluster(cluster any) (nodes []trace.M, cache []trace.M) {
 		it := nf.MapRange()
 		for it.Next() {
 			n := it.Value()
-			for n.Kind() == reflect.Pointer {
-				if n.IsNil() {
-					break
-				}
+			for n.Kind() == reflect.Pointer && !n.IsNil() {
 				n = n.Elem()
 			}
-			key := fmt.Sprint(it.Key().Interface())
+			key := orDash(fmt.Sprint(it.Key().Interface()))
 			if n.Kind() != reflect.Struct {
 				d, cnt := digestValue(it.Value())
-				nodes = append(nodes, trace.M{"key": orDash(key), "fields": []trace.M{{"name": "value", "d": d, "n": cnt, "v": "-"}}})
+				nodes[key+"|value"] = item(d, "value", cnt, "-")
 				continue
 			}
-			nodes = append(nodes, trace.M{"key": orDash(key), "fields": fieldRecords(n, nil)})
+			fieldItems(nodes, key+"|", n, nil)
 		}
 	}
-	sort.Slice(nodes, func(i, j int) bool { return nodes[i]["key"].(string) < nodes[j]["key"].(string) })
 	// infrastructure handles and locks carry no state: they canonicalise to "-" and therefore never differ
-	cache = fieldRecords(cv, skip)
+	fieldItems(cache, "", cv, skip)
 	return
 }
 
@@ -449,7 +446,8 @@ func price5(p float64) int {
 	return int(math.Round(p * 100000))
 }
 
-// snapCatalog: slice orders + per-type records.
+// snapCatalog: the order of every slice the provider hands out + per type: full-content digest, requirement contents,
+// capacity, and the offerings IN ORDER as small records.
 func (p *Provider) snapCatalog() trace.M {
 	names := func(its []*cloudprovider.InstanceType) []string {
 		out := []string{}
@@ -462,6 +460,7 @@ func (p *Provider) snapCatalog() trace.M {
 		}
 		return out
 	}
+	sec := newSection()
 	seen := map[*cloudprovider.InstanceType]bool{}
 	var all []*cloudprovider.InstanceType
 	add := func(its []*cloudprovider.InstanceType) {
@@ -473,18 +472,20 @@ func (p *Provider) snapCatalog() trace.M {
 		}
 	}
 	add(p.Types)
-	pools := []trace.M{}
-	pk := make([]string, 0, len(p.TypesForPool))
-	for k := range p.TypesForPool {
-		pk = append(pk, k)
+	sec["order"] = item(names(p.Types), "order", len(p.Types), "-")
+	for k, its := range p.TypesForPool {
+		add(its)
+		sec["pool:"+k] = item(names(its), "pool-order", len(its), "-")
 	}
-	sort.Strings(pk)
-	for _, k := range pk {
-		add(p.TypesForPool[k])
-		pools = append(pools, trace.M{"pool": k, "order": names(p.TypesForPool[k])})
-	}
-	types := []trace.M{}
-	for i, it := range all {
+	// identify a type by its name (and a counter when two distinct objects share a name), not by its position
+	cnt := map[string]int{}
+	sort.SliceStable(all, func(i, j int) bool { return all[i].Name < all[j].Name })
+	for _, it := range all {
+		cnt[it.Name]++
+		id := "type:" + it.Name
+		if cnt[it.Name] > 1 {
+			id += "#" + strconv.Itoa(cnt[it.Name])
+		}
 		// the allocatable groups are memoised on first use; force them so that "computed" vs "not yet computed" never differs
 		_ = it.AllocatableOfferingsList()
 		offs := []trace.M{}
@@ -501,34 +502,42 @@ func (p *Provider) snapCatalog() trace.M {
 				"rid": rid, "rcap": o.ReservationCapacity, "d": Digest(o)})
 		}
 		d, n := digestValue(reflect.ValueOf(it))
-		types = append(types, trace.M{"idx": i, "name": it.Name, "d": d, "n": n, "reqs": Digest(it.Requirements), "capacity": Digest(it.Capacity), "offerings": offs})
+		sec[id+":content"] = item(d, "type-content", n, "-")
+		sec[id+":requirements"] = item(Digest(it.Requirements), "requirements", len(it.Requirements), "-")
+		sec[id+":capacity"] = item(Digest(it.Capacity), "capacity", len(it.Capacity), "-")
+		sec[id+":offerings"] = item(offs, "offerings", len(offs), "-")
 	}
-	return trace.M{"order": names(p.Types), "pools": pools, "types": types}
+	return sec
 }
 
+// SnapshotEnabled: Snapshot events are only recorded for the C18 check (VERIF_FRAME=1); the other checks that share the
+// drivers neither pay for them nor see them in their traces.
+func SnapshotEnabled() bool { return os.Getenv("VERIF_FRAME") != "" }
+
 // Snapshot builds the Snapshot event (not yet emitted). `cluster` is the *state.Cluster (or nil).
+// Every section is a JSON object in the normal form Frame_Trace.tla compares: item-key -> {v, c, n, s}.
 func (w *World) Snapshot(cluster any, extra ...SnapExtra) trace.M {
 	api := w.snapAPI()
 	nodes, cache := snapCluster(cluster)
 	cat := w.Prov.snapCatalog()
 	w.Prov.mu.Lock()
-	inst := Digest(w.Prov.Instances)
+	instD, instN := digestValue(reflect.ValueOf(w.Prov.Instances))
 	w.Prov.mu.Unlock()
-	xs := []trace.M{}
+	inst := newSection()
+	inst["table"] = item(instD, "instances", instN, "-")
+	x := newSection()
 	for _, e := range extra {
-		items := []trace.M{}
 		for _, it := range e.Items {
 			d, n := digestValue(reflect.ValueOf(it.Val), it.Skip...)
-			items = append(items, trace.M{"k": it.Key, "d": d, "n": n})
+			x[e.Name+"|"+it.Key] = item(d, e.Name, n, "-")
 			if dir := os.Getenv("VERIF_SNAP_DEBUG"); dir != "" { // diagnosis only: the canonical form behind every digest of section x
 				b, _ := json.MarshalIndent(Canon(it.Val), "", " ")
 				_ = os.WriteFile(fmt.Sprintf("%s/x-%s-%s-%s.json", dir, e.Name, strings.ReplaceAll(it.Key, "/", "_"), d), b, 0o644)
 			}
 		}
-		xs = append(xs, trace.M{"name": e.Name, "items": items})
 	}
-	ev := trace.M{"e": "Snapshot", "api": api, "nodes": nodes, "cache": cache, "catalog": cat, "instances": inst, "x": xs}
-	ev["digest"] = trace.M{"api": hashJSON(api), "nodes": hashJSON(nodes), "cache": hashJSON(cache), "catalog": hashJSON(cat),
-		"instances": inst, "x": hashJSON(xs)}
+	ev := trace.M{"e": "Snapshot", "api": api, "node": nodes, "cache": cache, "catalog": cat, "instances": inst, "x": x}
+	ev["digest"] = trace.M{"api": hashJSON(api), "node": hashJSON(nodes), "cache": hashJSON(cache), "catalog": hashJSON(cat),
+		"instances": instD, "x": hashJSON(x)}
 	return ev
 }
